@@ -64,9 +64,10 @@ fn main() {
 		match suite.as_str() {
 			"window" => window::suite(&mut out, seed, thorough),
 			"action" => action::suite(&mut out, seed, thorough),
+			"ctor" => methods::ctor_suite(&mut out, seed, thorough),
 			"candle" => candle::suite(&mut out, seed, thorough),
 			"renko" => renko::suite(&mut out, seed, thorough),
-			"api" => api::suite(&mut out, seed, thorough),
+			"api" => api::suite(&mut out, seed, thorough, &arg(&args, "--which").unwrap_or_else(|| "routes".into())),
 			"ind" => {
 				let filter: Vec<String> = arg(&args, "--indicators").map(|s| s.split(',').map(|x| x.to_string()).collect()).unwrap_or_default();
 				indicators::suite(&mut out, seed, thorough, &filter)
